@@ -59,6 +59,7 @@ Fixpoint c02g_walk (outs : list gout) (os : list gobs) : bool :=
   | [], [] => true
   | OSent _ s _ _ :: ro, GOSend o :: rs => c02_send_check s o && c02g_walk ro rs
   | ORefresh st _ _ :: ro, GORefresh ws _ :: rs => c02_refresh_check st ws && c02g_walk ro rs
+  | OReconn _ _ :: ro, GOReconn s :: rs => String.eqb s "-" && c02g_walk ro rs
   | _, _ => false
   end.
 
@@ -70,6 +71,7 @@ Definition out_in_hyp (o : gout) : bool :=
   match o with
   | OSent _ s _ _ => case_set_ok s
   | ORefresh st _ r => match r with Ok _ => true | _ => negb (x_udp st) end
+  | OReconn _ _ => true
   end.
 Definition c02_wf_outs (outs : list gout) (os : list gobs) : bool :=
   forallb out_in_hyp outs &&
